@@ -119,7 +119,7 @@ class TwDriver:
                 self.svc.unsubscribe(unjbytes(ev[1]).decode())
             elif k == 'pub':
                 self.svc.publish(unjbytes(ev[1]).decode(), unjbytes(ev[2]))
-            elif k == 'read':
+            elif k in ('read', 'next'):
                 self.reads.append(self.svc.read())
             elif k == 'stop':
                 self.stopped = self.svc.stopService()
